@@ -193,6 +193,7 @@ type tokenAnswer struct {
 	idToken string
 	refresh string
 	desc    string // error_description for 4xx kinds
+	access  string // the access_token of the answer ("" = an opaque string); providers also hand out JWTs signed with the ID-token key
 }
 
 type provider struct {
@@ -211,6 +212,7 @@ type provider struct {
 	jwksHits    int
 	sched       func(point string) // scheduling hook (family sched)
 	jwksFail    bool
+	jwksDelay   time.Duration // real-time families: the key-set answer is in flight for a while
 	base        string // issuer and endpoint origin; "" = issuerURL
 	// via303: the token endpoint answers a successful grant with "303 See Other" to /token/result and a cookie naming the pending
 	// result (a provider behind a front end that parks responses); the result is handed out once, to whoever presents the cookie
@@ -277,7 +279,11 @@ func (p *provider) RoundTrip(r *http.Request) (*http.Response, error) {
 		p.mu.Lock()
 		p.jwksHits++
 		fail := p.jwksFail
+		delay := p.jwksDelay
 		p.mu.Unlock()
+		if delay > 0 {
+			time.Sleep(delay)
+		}
 		if fail {
 			rec.WriteHeader(500)
 			break
@@ -347,7 +353,11 @@ func (p *provider) RoundTrip(r *http.Request) (*http.Response, error) {
 			}
 			json.NewEncoder(rec).Encode(m)
 		case "noidtoken":
-			json.NewEncoder(rec).Encode(M{"access_token": "opaque-access-token", "expires_in": 3600, "token_type": "Bearer"})
+			at := "opaque-access-token"
+			if ans.access != "" {
+				at = ans.access
+			}
+			json.NewEncoder(rec).Encode(M{"access_token": at, "expires_in": 3600, "token_type": "Bearer"})
 		case "4xx", "invalid_grant":
 			rec.WriteHeader(400)
 			json.NewEncoder(rec).Encode(M{"error": "invalid_grant", "error_description": ans.desc})
